@@ -276,7 +276,13 @@ func GenHistoryFamily(w *Writer, r *Rng, t Tier) error {
 // per query and one set of bindings, and compares every result with the serial result.
 func Stress(seed uint64, goroutines, iters int) string {
 	r := NewRng(seed)
-	evs := GenEvents(r, DefaultDocCfg())
+	cfg := DefaultDocCfg()
+	cfg.MaxNodes, cfg.MaxKids = 48, 5
+	evs := GenEvents(r, cfg)
+	for tries := 0; tries < 20 && len(evs) < 30; tries++ {
+		// a document with some depth: lazily computed per-node data needs inner nodes to show
+		evs = GenEvents(r, cfg)
+	}
 	root, err := BuildTree(evs)
 	if err != nil {
 		return "builderr"
@@ -288,7 +294,8 @@ func Stress(seed uint64, goroutines, iters int) string {
 	}
 	kids := root.Children()
 	settings := []xsel.ContextApply{xsel.WithNS("p", "urn:a"), xsel.WithVariable("v", shared), xsel.WithVariable("k", xsel.NodeSet(kids[:len(kids):len(kids)])), xsel.WithVariable("n", xsel.Number(2))}
-	texts := []string{"$v | //*", "//*[position() = $n]", "count(//node())", "($v)[2]/ancestor::*", "//@* | $k", "string(/*)", "$v/.. | $v", "//*[. = //*[1]]", "sum(//*[number(.) = number(.)])"}
+	texts := []string{"$v | //*", "//*[position() = $n]", "count(//node())", "($v)[2]/ancestor::*", "//@* | $k", "string(/*)", "$v/.. | $v", "//*[. = //*[1]]", "sum(//*[number(.) = number(.)])",
+		"count(//node()[string-length() >= 0])", "string(/)", "count(//*[. = .])", "count(//@*[. != ''])", "count(//*[name() = local-name()])", "//*[lang('en')]"}
 	type q struct {
 		g    xsel.Grammar
 		want []string
@@ -310,12 +317,20 @@ func Stress(seed uint64, goroutines, iters int) string {
 	var wg sync.WaitGroup
 	var mu sync.Mutex
 	var seen []obs
+	start := make(chan struct{})
 	for gi := 0; gi < goroutines; gi++ {
 		wg.Add(1)
 		go func(gi int) {
 			defer wg.Done()
 			lr := NewRng(seed*1000 + uint64(gi))
-			local := make([]obs, 0, iters)
+			local := make([]obs, 0, iters+len(qs))
+			<-start
+			// every goroutine first runs EVERY query from the root, all at the same moment: whatever
+			// is computed lazily per node or per expression is computed for the first time here
+			for k := range qs {
+				qi := (k + gi) % len(qs)
+				local = append(local, obs{qi, 0, runShared(d, 0, &qs[qi].g, settings)})
+			}
 			for it := 0; it < iters; it++ {
 				qi := lr.Intn(len(qs))
 				s := lr.Intn(len(d.Cursors))
@@ -326,6 +341,7 @@ func Stress(seed uint64, goroutines, iters int) string {
 			mu.Unlock()
 		}(gi)
 	}
+	close(start)
 	wg.Wait()
 	for _, item := range qs {
 		for s := range d.Cursors {
@@ -337,7 +353,7 @@ func Stress(seed uint64, goroutines, iters int) string {
 			return fmt.Sprintf("mismatch query %d from node %d: concurrent %s, serial %s", o.qi, o.start, o.got, qs[o.qi].want[o.start])
 		}
 	}
-	return fmt.Sprintf("ok %d", goroutines*iters)
+	return fmt.Sprintf("ok %d", len(seen))
 }
 
 func runShared(d *Dump, start int, g *xsel.Grammar, settings []xsel.ContextApply) (out string) {
